@@ -1,1 +1,948 @@
-// placeholder
+//! Reference semantics: an independent scope resolver and a deliberately boring tree-walking
+//! interpreter over the harness AST. Shares no code with the implementation; every rule is
+//! traceable to docs/*.md or is an adopted convention listed in DESIGN.md Appendix C.
+
+use std::collections::{HashMap, HashSet};
+
+use crate::ast::{E, Op, S, SP};
+use crate::drive::TV;
+
+#[derive(Clone, Debug, PartialEq)]
+pub enum V {
+    N(f64),
+    S(String),
+    B(bool),
+    Z,
+    A(Vec<V>),
+}
+
+impl V {
+    pub fn tv(&self) -> TV {
+        match self {
+            V::N(n) => TV::num(*n),
+            V::S(s) => TV::s(s),
+            V::B(b) => TV::B(*b),
+            V::Z => TV::Z,
+            V::A(v) => TV::A(v.iter().map(V::tv).collect()),
+        }
+    }
+    pub fn type_name(&self) -> &'static str {
+        match self {
+            V::N(_) => "number",
+            V::S(_) => "string",
+            V::B(_) => "boolean",
+            V::Z => "null",
+            V::A(_) => "array",
+        }
+    }
+    /// printed form (shout / to_string / placeholders)
+    pub fn show(&self) -> String {
+        match self {
+            V::N(n) => format!("{n}"),
+            V::S(s) => s.clone(),
+            V::B(b) => format!("{b}"),
+            V::Z => "null".into(),
+            V::A(items) => {
+                let parts: Vec<String> = items
+                    .iter()
+                    .map(|x| match x {
+                        V::S(s) => format!("\"{s}\""),
+                        o => o.show(),
+                    })
+                    .collect();
+                format!("[{}]", parts.join(", "))
+            }
+        }
+    }
+}
+
+// ---------------------------------------------------------------------------------------
+// static side: scope resolution and the documented static rules
+// ---------------------------------------------------------------------------------------
+
+#[derive(Clone, Debug, PartialEq, Eq, Hash)]
+pub enum Rule {
+    UndeclaredVar(String),
+    AssignUndeclared(String),
+    UndeclaredFunc(String),
+    Arity(String),
+    BreakOutsideLoop,
+    NextOutsideLoop,
+    ReturnOutsideFunction,
+    DuplicateFunction(String),
+    DuplicateParam(String),
+    ReservedName(String),
+}
+
+pub type DeclId = u32;
+pub type FuncId = u32;
+
+#[derive(Clone, Debug)]
+pub enum RE {
+    Num(f64),
+    Str(Vec<RSP>),
+    Bool(bool),
+    Null,
+    Var(DeclId),
+    Bin(Op, Box<RE>, Box<RE>),
+    Not(Box<RE>),
+    Neg(Box<RE>),
+    Arr(Vec<RE>),
+    Idx(Box<RE>, Box<RE>),
+    CallUser(FuncId, Vec<RE>),
+    CallGlobal(String, Vec<RE>),
+    Meth(Box<RE>, String, Vec<RE>),
+    /// something the resolver could not bind (only in ill-formed programs)
+    Unbound,
+}
+
+#[derive(Clone, Debug)]
+pub enum RSP {
+    Lit(String),
+    Var(DeclId),
+}
+
+#[derive(Clone, Debug)]
+pub enum RS {
+    Make(DeclId, Option<RE>),
+    Set(DeclId, RE),
+    SetIdx(RE, RE),
+    If(RE, RBlock, Option<RBlock>),
+    Loop(RE, RBlock),
+    Block(RBlock),
+    FuncDef,
+    Ret(Option<RE>),
+    Break,
+    Next,
+    Expr(RE),
+    Unbound,
+}
+
+#[derive(Clone, Debug, Default)]
+pub struct RBlock {
+    pub stmts: Vec<RS>,
+    /// functions defined directly in this block (hoisted at entry)
+    pub funcs: Vec<FuncId>,
+}
+
+#[derive(Clone, Debug)]
+pub struct RFunc {
+    pub name: String,
+    pub params: Vec<DeclId>,
+    pub body: RBlock,
+}
+
+#[derive(Debug, Default)]
+pub struct Resolution {
+    pub rules: Vec<Rule>,
+    /// constructs whose binding the documentation does not settle (see Appendix C): a use
+    /// that precedes a later declaration of the same name in an enclosing block
+    pub ambiguous: bool,
+    pub root: RBlock,
+    pub funcs: Vec<RFunc>,
+    pub decl_count: u32,
+}
+
+const GLOBALS: &[(&str, usize)] =
+    &[("shout", 1), ("typeof", 1), ("read_line", 1), ("to_string", 1), ("command", 1)];
+
+pub fn is_global(name: &str) -> bool {
+    GLOBALS.iter().any(|(n, _)| *n == name)
+}
+
+struct Scope {
+    vars: HashMap<String, DeclId>,
+    /// names declared by `make` anywhere directly in this block (used to flag ambiguity)
+    later: HashSet<String>,
+    funcs: HashMap<String, (FuncId, usize)>,
+}
+
+struct Res {
+    scopes: Vec<Scope>,
+    out: Resolution,
+    in_loop: u32,
+    in_func: u32,
+}
+
+pub fn resolve(prog: &[S]) -> Resolution {
+    let mut r = Res { scopes: vec![], out: Resolution::default(), in_loop: 0, in_func: 0 };
+    let root = r.block(prog, None);
+    r.out.root = root;
+    r.out
+}
+
+impl Res {
+    fn new_decl(&mut self) -> DeclId {
+        self.out.decl_count += 1;
+        self.out.decl_count - 1
+    }
+
+    fn lookup_var(&mut self, name: &str) -> Option<DeclId> {
+        for sc in self.scopes.iter().rev() {
+            if let Some(&d) = sc.vars.get(name) {
+                return Some(d);
+            }
+            if sc.later.contains(name) {
+                // declared later in this block: which binding a use before it sees is not
+                // settled by the documentation
+                self.out.ambiguous = true;
+            }
+        }
+        None
+    }
+
+    fn lookup_func(&self, name: &str) -> Option<(FuncId, usize)> {
+        self.scopes.iter().rev().find_map(|sc| sc.funcs.get(name).copied())
+    }
+
+    fn block(&mut self, stmts: &[S], params: Option<(&[String], &mut Vec<DeclId>)>) -> RBlock {
+        // a function's parameters live in a scope of their own around the body block
+        if let Some((ps, ids)) = params {
+            let mut sc = Scope { vars: HashMap::new(), later: HashSet::new(), funcs: HashMap::new() };
+            let mut seen = HashSet::new();
+            for p in ps {
+                if is_global(p) {
+                    self.out.rules.push(Rule::ReservedName(p.clone()));
+                }
+                if !seen.insert(p.clone()) {
+                    self.out.rules.push(Rule::DuplicateParam(p.clone()));
+                }
+                let d = self.new_decl();
+                sc.vars.insert(p.clone(), d);
+                ids.push(d);
+            }
+            self.scopes.push(sc);
+            let b = self.block(stmts, None);
+            self.scopes.pop();
+            return b;
+        }
+        let mut sc = Scope { vars: HashMap::new(), later: HashSet::new(), funcs: HashMap::new() };
+        for s in stmts {
+            if let S::Make(v, _) = s {
+                sc.later.insert(v.clone());
+            }
+        }
+        // functions are visible throughout their block: pre-declare
+        let mut rb = RBlock::default();
+        let mut fids = Vec::new();
+        for s in stmts {
+            if let S::Func(name, ps, _) = s {
+                if is_global(name) {
+                    self.out.rules.push(Rule::ReservedName(name.clone()));
+                }
+                if sc.funcs.contains_key(name) {
+                    self.out.rules.push(Rule::DuplicateFunction(name.clone()));
+                    fids.push(None);
+                    continue;
+                }
+                let fid = self.out.funcs.len() as FuncId;
+                self.out.funcs.push(RFunc { name: name.clone(), params: vec![], body: RBlock::default() });
+                sc.funcs.insert(name.clone(), (fid, ps.len()));
+                rb.funcs.push(fid);
+                fids.push(Some(fid));
+            }
+        }
+        self.scopes.push(sc);
+        let mut fi = 0;
+        for s in stmts {
+            let rs = match s {
+                S::Func(_, ps, body) => {
+                    let fid = fids[fi];
+                    fi += 1;
+                    // the body is resolved at the position of the definition statement
+                    let (l, f) = (self.in_loop, self.in_func);
+                    self.in_loop = 0;
+                    self.in_func += 1;
+                    let mut ids = Vec::new();
+                    let b = self.block(body, Some((ps, &mut ids)));
+                    self.in_loop = l;
+                    self.in_func = f;
+                    if let Some(fid) = fid {
+                        self.out.funcs[fid as usize].params = ids;
+                        self.out.funcs[fid as usize].body = b;
+                    }
+                    RS::FuncDef
+                }
+                other => self.stmt(other),
+            };
+            rb.stmts.push(rs);
+        }
+        self.scopes.pop();
+        rb
+    }
+
+    fn stmt(&mut self, s: &S) -> RS {
+        match s {
+            S::Make(v, e) => {
+                if is_global(v) {
+                    self.out.rules.push(Rule::ReservedName(v.clone()));
+                }
+                // the initialiser is evaluated before the name is (re)bound
+                let re = e.as_ref().map(|e| self.expr(e));
+                let cur = self.scopes.last_mut().unwrap();
+                let d = if let Some(&d) = cur.vars.get(v) {
+                    d
+                } else {
+                    self.out.decl_count += 1;
+                    let d = self.out.decl_count - 1;
+                    self.scopes.last_mut().unwrap().vars.insert(v.clone(), d);
+                    d
+                };
+                // from here on the name is declared in this block
+                self.scopes.last_mut().unwrap().later.remove(v);
+                // (a second `make` of the same name later in the block rebinds the same
+                // variable: no ambiguity for uses in between)
+                RS::Make(d, re)
+            }
+            S::Set(v, e) => {
+                let d = self.lookup_var(v);
+                let re = self.expr(e);
+                match d {
+                    Some(d) => RS::Set(d, re),
+                    None => {
+                        self.out.rules.push(Rule::AssignUndeclared(v.clone()));
+                        RS::Unbound
+                    }
+                }
+            }
+            S::SetIdx(t, e) => {
+                let rt = self.expr(t);
+                let re = self.expr(e);
+                RS::SetIdx(rt, re)
+            }
+            S::If(c, t, e) => {
+                let rc = self.expr(c);
+                let rt = self.block(t, None);
+                let re = e.as_ref().map(|e| self.block(e, None));
+                RS::If(rc, rt, re)
+            }
+            S::Loop(c, b) => {
+                let rc = self.expr(c);
+                self.in_loop += 1;
+                let rb = self.block(b, None);
+                self.in_loop -= 1;
+                RS::Loop(rc, rb)
+            }
+            S::Block(b) => RS::Block(self.block(b, None)),
+            S::Func(..) => unreachable!(),
+            S::Ret(e) => {
+                if self.in_func == 0 {
+                    self.out.rules.push(Rule::ReturnOutsideFunction);
+                }
+                RS::Ret(e.as_ref().map(|e| self.expr(e)))
+            }
+            S::Break => {
+                if self.in_loop == 0 {
+                    self.out.rules.push(Rule::BreakOutsideLoop);
+                }
+                RS::Break
+            }
+            S::Next => {
+                if self.in_loop == 0 {
+                    self.out.rules.push(Rule::NextOutsideLoop);
+                }
+                RS::Next
+            }
+            S::Expr(e) => RS::Expr(self.expr(e)),
+        }
+    }
+
+    fn expr(&mut self, e: &E) -> RE {
+        match e {
+            E::Num(n) => RE::Num(n.parse::<f64>().unwrap_or(f64::NAN)),
+            E::Str(parts) => RE::Str(
+                parts
+                    .iter()
+                    .map(|p| match p {
+                        SP::Lit(t) => RSP::Lit(t.clone()),
+                        SP::Var(v) => match self.lookup_var(v) {
+                            Some(d) => RSP::Var(d),
+                            None => {
+                                self.out.rules.push(Rule::UndeclaredVar(v.clone()));
+                                RSP::Lit(String::new())
+                            }
+                        },
+                    })
+                    .collect(),
+            ),
+            E::Bool(b) => RE::Bool(*b),
+            E::Null => RE::Null,
+            E::Var(v) => match self.lookup_var(v) {
+                Some(d) => RE::Var(d),
+                None => {
+                    self.out.rules.push(Rule::UndeclaredVar(v.clone()));
+                    RE::Unbound
+                }
+            },
+            E::Bin(op, a, b) => {
+                let ra = self.expr(a);
+                let rb = self.expr(b);
+                RE::Bin(*op, Box::new(ra), Box::new(rb))
+            }
+            E::Not(x) => RE::Not(Box::new(self.expr(x))),
+            E::Neg(x) => RE::Neg(Box::new(self.expr(x))),
+            E::Paren(x) => self.expr(x),
+            E::Arr(items) => RE::Arr(items.iter().map(|x| self.expr(x)).collect()),
+            E::Idx(a, i) => {
+                let ra = self.expr(a);
+                let ri = self.expr(i);
+                RE::Idx(Box::new(ra), Box::new(ri))
+            }
+            E::Call(f, args) => {
+                let rargs: Vec<RE> = args.iter().map(|x| self.expr(x)).collect();
+                if let Some((_, ar)) = GLOBALS.iter().find(|(n, _)| n == f) {
+                    if *ar != args.len() {
+                        self.out.rules.push(Rule::Arity(f.clone()));
+                    }
+                    RE::CallGlobal(f.clone(), rargs)
+                } else if let Some((fid, ar)) = self.lookup_func(f) {
+                    if ar != args.len() {
+                        self.out.rules.push(Rule::Arity(f.clone()));
+                    }
+                    RE::CallUser(fid, rargs)
+                } else {
+                    self.out.rules.push(Rule::UndeclaredFunc(f.clone()));
+                    RE::Unbound
+                }
+            }
+            E::Meth(r, m, args) => {
+                let rr = self.expr(r);
+                let rargs: Vec<RE> = args.iter().map(|x| self.expr(x)).collect();
+                RE::Meth(Box::new(rr), m.clone(), rargs)
+            }
+        }
+    }
+}
+
+// ---------------------------------------------------------------------------------------
+// dynamic side
+// ---------------------------------------------------------------------------------------
+
+#[derive(Clone, Debug, PartialEq)]
+pub enum RefEnd {
+    Normal,
+    /// runtime error, by the implementation's own kind string (obtained at run time)
+    Error(&'static str),
+    /// the documentation does not define this run (reason); never a ground for a verdict
+    Unspecified(&'static str),
+}
+
+#[derive(Clone, Debug)]
+pub struct RefObs {
+    pub out: Vec<TV>,
+    pub end: RefEnd,
+    pub steps: u64,
+    pub max_depth: u32,
+}
+
+pub struct ErrKinds {
+    pub div0: &'static str,
+    pub oob: &'static str,
+    pub invalid_index: &'static str,
+    pub stack: &'static str,
+}
+
+pub fn err_kinds() -> ErrKinds {
+    use naijascript::diagnostics::AsStr;
+    use naijascript::runtime::RuntimeErrorKind as K;
+    ErrKinds {
+        div0: K::DivisionByZero.as_str(),
+        oob: K::IndexOutOfBounds.as_str(),
+        invalid_index: K::InvalidIndex.as_str(),
+        stack: K::StackOverflow.as_str(),
+    }
+}
+
+enum Stop {
+    Err(&'static str),
+    Unspec(&'static str),
+}
+
+enum Flow {
+    Go,
+    Ret(V),
+    Break,
+    Next,
+}
+
+struct Frame {
+    vars: HashMap<DeclId, V>,
+    funcs: Vec<(FuncId, usize)>, // (function, defining frame)
+    parent: Option<usize>,
+}
+
+pub struct Interp<'a> {
+    res: &'a Resolution,
+    frames: Vec<Frame>,
+    out: Vec<TV>,
+    steps: u64,
+    depth: u32,
+    max_depth: u32,
+    kinds: ErrKinds,
+    pub step_budget: u64,
+    pub depth_budget: u32,
+}
+
+pub fn run(res: &Resolution) -> RefObs {
+    let mut it = Interp {
+        res,
+        frames: Vec::new(),
+        out: Vec::new(),
+        steps: 0,
+        depth: 0,
+        max_depth: 0,
+        kinds: err_kinds(),
+        step_budget: 200_000,
+        depth_budget: 200,
+    };
+    let end = match it.block(&res.root, None) {
+        Ok(_) => RefEnd::Normal,
+        Err(Stop::Err(k)) => RefEnd::Error(k),
+        Err(Stop::Unspec(w)) => RefEnd::Unspecified(w),
+    };
+    RefObs { out: it.out, end, steps: it.steps, max_depth: it.max_depth }
+}
+
+impl Interp<'_> {
+    fn tick(&mut self) -> Result<(), Stop> {
+        self.steps += 1;
+        if self.steps > self.step_budget { Err(Stop::Unspec("step budget")) } else { Ok(()) }
+    }
+
+    fn find_var(&self, mut f: usize, d: DeclId) -> Option<usize> {
+        loop {
+            if self.frames[f].vars.contains_key(&d) {
+                return Some(f);
+            }
+            f = self.frames[f].parent?;
+        }
+    }
+
+    fn find_func(&self, mut f: usize, id: FuncId) -> Option<usize> {
+        loop {
+            if let Some((_, env)) = self.frames[f].funcs.iter().find(|(x, _)| *x == id) {
+                return Some(*env);
+            }
+            f = self.frames[f].parent?;
+        }
+    }
+
+    fn block(&mut self, b: &RBlock, parent: Option<usize>) -> Result<Flow, Stop> {
+        let me = self.frames.len();
+        self.frames.push(Frame { vars: HashMap::new(), funcs: Vec::new(), parent });
+        for &fid in &b.funcs {
+            self.frames[me].funcs.push((fid, me));
+        }
+        for s in &b.stmts {
+            match self.stmt(s, me)? {
+                Flow::Go => {}
+                other => return Ok(other),
+            }
+        }
+        Ok(Flow::Go)
+    }
+
+    fn truthy(v: &V) -> Result<bool, Stop> {
+        match v {
+            V::B(b) => Ok(*b),
+            V::Z => Ok(false),
+            _ => Err(Stop::Unspec("non-boolean condition")),
+        }
+    }
+
+    fn stmt(&mut self, s: &RS, f: usize) -> Result<Flow, Stop> {
+        self.tick()?;
+        match s {
+            RS::Make(d, e) => {
+                let v = match e {
+                    Some(e) => self.eval(e, f)?,
+                    None => V::Z,
+                };
+                self.frames[f].vars.insert(*d, v);
+                Ok(Flow::Go)
+            }
+            RS::Set(d, e) => {
+                let v = self.eval(e, f)?;
+                let Some(fr) = self.find_var(f, *d) else {
+                    return Err(Stop::Unspec("assignment before declaration executed"));
+                };
+                self.frames[fr].vars.insert(*d, v);
+                Ok(Flow::Go)
+            }
+            RS::SetIdx(t, e) => {
+                // right-hand side first, then the indices left to right (the generators keep
+                // index expressions free of side effects, so the order is unobservable)
+                let v = self.eval(e, f)?;
+                let (d, idxs) = self.lvalue(t, f)?;
+                let Some(fr) = self.find_var(f, d) else {
+                    return Err(Stop::Unspec("use before declaration executed"));
+                };
+                let kinds = (self.kinds.oob, self.kinds.invalid_index);
+                let mut slot = self.frames[fr].vars.get_mut(&d).unwrap();
+                for (k, i) in idxs.iter().enumerate() {
+                    let V::A(items) = slot else {
+                        return Err(Stop::Unspec("index assignment into non-array"));
+                    };
+                    if *i >= items.len() {
+                        return Err(Stop::Err(kinds.0));
+                    }
+                    if k + 1 == idxs.len() {
+                        items[*i] = v;
+                        return Ok(Flow::Go);
+                    }
+                    slot = &mut items[*i];
+                }
+                Err(Stop::Unspec("empty index chain"))
+            }
+            RS::If(c, t, e) => {
+                let cv = self.eval(c, f)?;
+                if Self::truthy(&cv)? {
+                    self.block(t, Some(f))
+                } else if let Some(e) = e {
+                    self.block(e, Some(f))
+                } else {
+                    Ok(Flow::Go)
+                }
+            }
+            RS::Loop(c, b) => {
+                loop {
+                    self.tick()?;
+                    let cv = self.eval(c, f)?;
+                    if !Self::truthy(&cv)? {
+                        break;
+                    }
+                    match self.block(b, Some(f))? {
+                        Flow::Break => break,
+                        Flow::Go | Flow::Next => {}
+                        r @ Flow::Ret(_) => return Ok(r),
+                    }
+                }
+                Ok(Flow::Go)
+            }
+            RS::Block(b) => self.block(b, Some(f)),
+            RS::FuncDef => Ok(Flow::Go),
+            RS::Ret(e) => {
+                let v = match e {
+                    Some(e) => self.eval(e, f)?,
+                    None => V::Z,
+                };
+                Ok(Flow::Ret(v))
+            }
+            RS::Break => Ok(Flow::Break),
+            RS::Next => Ok(Flow::Next),
+            RS::Expr(e) => {
+                self.eval(e, f)?;
+                Ok(Flow::Go)
+            }
+            RS::Unbound => Err(Stop::Unspec("ill-formed program")),
+        }
+    }
+
+    /// index chain rooted at a variable → (decl, indices)
+    fn lvalue(&mut self, t: &RE, f: usize) -> Result<(DeclId, Vec<usize>), Stop> {
+        let mut chain = Vec::new();
+        let mut cur = t;
+        loop {
+            match cur {
+                RE::Idx(a, i) => {
+                    chain.push(i.as_ref());
+                    cur = a;
+                }
+                RE::Var(d) => {
+                    chain.reverse();
+                    let mut idxs = Vec::new();
+                    for i in chain {
+                        let iv = self.eval(i, f)?;
+                        idxs.push(self.index_value(&iv)?);
+                    }
+                    return Ok((*d, idxs));
+                }
+                _ => return Err(Stop::Unspec("receiver is not a variable or index chain")),
+            }
+        }
+    }
+
+    fn index_value(&self, v: &V) -> Result<usize, Stop> {
+        let V::N(n) = v else { return Err(Stop::Err(self.kinds.invalid_index)) };
+        if !n.is_finite() || n.fract() != 0.0 {
+            return Err(Stop::Err(self.kinds.invalid_index));
+        }
+        if *n < 0.0 {
+            return Err(Stop::Err(self.kinds.oob));
+        }
+        if *n >= 1e15 {
+            return Ok(usize::MAX);
+        }
+        Ok(*n as usize)
+    }
+
+    fn eval(&mut self, e: &RE, f: usize) -> Result<V, Stop> {
+        self.tick()?;
+        match e {
+            RE::Num(n) => Ok(V::N(*n)),
+            RE::Bool(b) => Ok(V::B(*b)),
+            RE::Null => Ok(V::Z),
+            RE::Str(parts) => {
+                let mut s = String::new();
+                for p in parts {
+                    match p {
+                        RSP::Lit(t) => s.push_str(t),
+                        RSP::Var(d) => {
+                            let Some(fr) = self.find_var(f, *d) else {
+                                return Err(Stop::Unspec("use before declaration executed"));
+                            };
+                            s.push_str(&self.frames[fr].vars[d].show());
+                        }
+                    }
+                }
+                Ok(V::S(s))
+            }
+            RE::Var(d) => {
+                let Some(fr) = self.find_var(f, *d) else {
+                    return Err(Stop::Unspec("use before declaration executed"));
+                };
+                Ok(self.frames[fr].vars[d].clone())
+            }
+            RE::Bin(Op::And, a, b) => {
+                let l = self.eval(a, f)?;
+                if !Self::truthy(&l)? {
+                    return Ok(V::B(false));
+                }
+                let r = self.eval(b, f)?;
+                Ok(V::B(Self::truthy(&r)?))
+            }
+            RE::Bin(Op::Or, a, b) => {
+                let l = self.eval(a, f)?;
+                if Self::truthy(&l)? {
+                    return Ok(V::B(true));
+                }
+                let r = self.eval(b, f)?;
+                Ok(V::B(Self::truthy(&r)?))
+            }
+            RE::Bin(op, a, b) => {
+                let l = self.eval(a, f)?;
+                let r = self.eval(b, f)?;
+                self.binop(*op, l, r)
+            }
+            RE::Not(x) => {
+                let v = self.eval(x, f)?;
+                Ok(V::B(!Self::truthy(&v)?))
+            }
+            RE::Neg(x) => match self.eval(x, f)? {
+                V::N(n) => Ok(V::N(-n)),
+                _ => Err(Stop::Unspec("minus on non-number")),
+            },
+            RE::Arr(items) => {
+                let mut v = Vec::new();
+                for it in items {
+                    v.push(self.eval(it, f)?);
+                }
+                Ok(V::A(v))
+            }
+            RE::Idx(a, i) => {
+                let av = self.eval(a, f)?;
+                let iv = self.eval(i, f)?;
+                let V::A(items) = av else { return Err(Stop::Unspec("index of non-array")) };
+                let k = self.index_value(&iv)?;
+                if k >= items.len() {
+                    return Err(Stop::Err(self.kinds.oob));
+                }
+                Ok(items[k].clone())
+            }
+            RE::CallUser(fid, args) => {
+                let mut vals = Vec::new();
+                for a in args {
+                    vals.push(self.eval(a, f)?);
+                }
+                let Some(env) = self.find_func(f, *fid) else {
+                    return Err(Stop::Unspec("function not reachable lexically"));
+                };
+                let func = &self.res.funcs[*fid as usize];
+                if func.params.len() != vals.len() {
+                    return Err(Stop::Unspec("arity"));
+                }
+                self.depth += 1;
+                self.max_depth = self.max_depth.max(self.depth);
+                if self.depth > self.depth_budget {
+                    // generated terminating recursions stay far below the budget
+                    return Err(Stop::Err(self.kinds.stack));
+                }
+                let pf = self.frames.len();
+                self.frames.push(Frame { vars: HashMap::new(), funcs: Vec::new(), parent: Some(env) });
+                for (d, v) in func.params.iter().zip(vals) {
+                    self.frames[pf].vars.insert(*d, v);
+                }
+                let flow = self.block(&func.body, Some(pf));
+                self.depth -= 1;
+                match flow? {
+                    Flow::Ret(v) => Ok(v),
+                    Flow::Go => Ok(V::Z),
+                    Flow::Break | Flow::Next => Err(Stop::Unspec("loop control escaped a function")),
+                }
+            }
+            RE::CallGlobal(name, args) => {
+                let mut vals = Vec::new();
+                for a in args {
+                    vals.push(self.eval(a, f)?);
+                }
+                match (name.as_str(), vals.as_slice()) {
+                    ("shout", [v]) => {
+                        self.out.push(v.tv());
+                        Ok(V::Z)
+                    }
+                    ("typeof", [v]) => Ok(V::S(v.type_name().into())),
+                    ("to_string", [v]) => Ok(V::S(v.show())),
+                    _ => Err(Stop::Unspec("global not modelled")),
+                }
+            }
+            RE::Meth(r, m, args) => self.method(r, m, args, f),
+            RE::Unbound => Err(Stop::Unspec("ill-formed program")),
+        }
+    }
+
+    fn binop(&self, op: Op, l: V, r: V) -> Result<V, Stop> {
+        use V::{B, N, S, Z};
+        Ok(match (op, l, r) {
+            (Op::Add, N(a), N(b)) => N(a + b),
+            (Op::Add, S(a), S(b)) => S(a + &b),
+            (Op::Add, S(a), N(b)) => S(format!("{a}{b}")),
+            (Op::Add, N(a), S(b)) => S(format!("{a}{b}")),
+            (Op::Sub, N(a), N(b)) => N(a - b),
+            (Op::Mul, N(a), N(b)) => N(a * b),
+            (Op::Div, N(a), N(b)) => {
+                if b == 0.0 {
+                    return Err(Stop::Err(self.kinds.div0));
+                }
+                N(a / b)
+            }
+            (Op::Mod, N(a), N(b)) => {
+                if b == 0.0 {
+                    return Err(Stop::Err(self.kinds.div0));
+                }
+                N(a % b)
+            }
+            (Op::Eq, N(a), N(b)) => B((a - b).abs() <= 1e-12),
+            (Op::Gt, N(a), N(b)) => B(a > b),
+            (Op::Lt, N(a), N(b)) => B(a < b),
+            (Op::Eq, S(a), S(b)) => B(a == b),
+            (Op::Gt, S(a), S(b)) => B(a.as_bytes() > b.as_bytes()),
+            (Op::Lt, S(a), S(b)) => B(a.as_bytes() < b.as_bytes()),
+            (Op::Eq, B(a), B(b)) => B(a == b),
+            (Op::Gt, B(a), B(b)) => B(a & !b),
+            (Op::Lt, B(a), B(b)) => B(!a & b),
+            (Op::Eq, Z, Z) => B(true),
+            (Op::Eq | Op::Gt | Op::Lt, Z, _) | (Op::Eq | Op::Gt | Op::Lt, _, Z) => B(false),
+            _ => return Err(Stop::Unspec("operator on operand types the documentation does not define")),
+        })
+    }
+
+    fn method(&mut self, r: &RE, m: &str, args: &[RE], f: usize) -> Result<V, Stop> {
+        // mutating array methods work on a variable or an index chain
+        if matches!(m, "push" | "pop" | "reverse") {
+            let arg = match (m, args) {
+                ("push", [a]) => Some(self.eval(a, f)?),
+                ("pop" | "reverse", []) => None,
+                _ => return Err(Stop::Unspec("method arity")),
+            };
+            let (d, idxs) = self.lvalue(r, f)?;
+            let Some(fr) = self.find_var(f, d) else {
+                return Err(Stop::Unspec("use before declaration executed"));
+            };
+            let oob = self.kinds.oob;
+            let mut slot = self.frames[fr].vars.get_mut(&d).unwrap();
+            for i in idxs {
+                let V::A(items) = slot else { return Err(Stop::Unspec("index into non-array")) };
+                if i >= items.len() {
+                    return Err(Stop::Err(oob));
+                }
+                slot = &mut items[i];
+            }
+            let V::A(items) = slot else { return Err(Stop::Unspec("array method on non-array")) };
+            return Ok(match m {
+                "push" => {
+                    items.push(arg.unwrap());
+                    V::Z
+                }
+                "pop" => items.pop().unwrap_or(V::Z),
+                _ => {
+                    items.reverse();
+                    V::Z
+                }
+            });
+        }
+        let recv = self.eval(r, f)?;
+        let mut vals = Vec::new();
+        for a in args {
+            vals.push(self.eval(a, f)?);
+        }
+        use V::{A, N, S};
+        Ok(match (recv, m, vals.as_slice()) {
+            (S(s), "len", []) => N(s.chars().count() as f64),
+            (S(s), "slice", [N(a), N(b)]) => {
+                if a.is_nan() || b.is_nan() {
+                    return Err(Stop::Unspec("slice with NaN bound"));
+                }
+                let chars: Vec<char> = s.chars().collect();
+                let len = chars.len() as f64;
+                let norm = |x: f64| {
+                    let fl = x.floor();
+                    let v = if fl < 0.0 { fl + len } else { fl };
+                    v.clamp(0.0, len) as usize
+                };
+                let (st, en) = (norm(*a), norm(*b));
+                S(if st >= en { String::new() } else { chars[st..en].iter().collect() })
+            }
+            (S(s), "to_uppercase", []) => S(s.to_uppercase()),
+            (S(s), "to_lowercase", []) => {
+                if s.contains('Σ') {
+                    return Err(Stop::Unspec("final sigma"));
+                }
+                S(s.to_lowercase())
+            }
+            (S(s), "find", [S(n)]) => {
+                if !s.is_ascii() {
+                    return Err(Stop::Unspec("find offset unit on non-ASCII haystack"));
+                }
+                N(s.find(n.as_str()).map_or(-1.0, |i| i as f64))
+            }
+            (S(s), "replace", [S(a), S(b)]) => S(s.replace(a.as_str(), b)),
+            (S(s), "trim", []) => S(s.trim().to_string()),
+            (S(s), "to_number", []) => {
+                let t = s.as_str();
+                let simple = !t.is_empty()
+                    && t.chars().all(|c| c.is_ascii_digit() || c == '.' || c == '-')
+                    && t.chars().filter(|c| *c == '.').count() <= 1
+                    && t.chars().any(|c| c.is_ascii_digit())
+                    && !t[1..].contains('-');
+                if simple {
+                    N(t.parse::<f64>().unwrap_or(f64::NAN))
+                } else if t.chars().any(|c| c.is_ascii_digit()) || matches!(t.to_ascii_lowercase().trim_start_matches(['+', '-']), "inf" | "infinity" | "nan") {
+                    return Err(Stop::Unspec("to_number spelling"));
+                } else {
+                    N(f64::NAN)
+                }
+            }
+            (S(s), "split", [S(p)]) => A(s.split(p.as_str()).map(|x| S(x.to_string())).collect()),
+            (N(n), "abs", []) => N(n.abs()),
+            (N(n), "sqrt", []) => N(n.sqrt()),
+            (N(n), "floor", []) => N(n.floor()),
+            (N(n), "ceil", []) => N(n.ceil()),
+            (N(n), "round", []) => N(n.round()),
+            (A(items), "len", []) => N(items.len() as f64),
+            (A(items), "join", [S(sep)]) => S(join(&items, sep)),
+            _ => return Err(Stop::Unspec("method on receiver/arguments the documentation does not define")),
+        })
+    }
+}
+
+fn join(items: &[V], sep: &str) -> String {
+    let parts: Vec<String> = items
+        .iter()
+        .map(|x| match x {
+            V::S(s) => s.clone(),
+            V::A(inner) => join(inner, sep),
+            o => o.show(),
+        })
+        .collect();
+    parts.join(sep)
+}
